@@ -144,6 +144,42 @@ def colours_at(body, tests, blk, subject=None):
     return may
 
 
+def true_colours(prog, pred):
+    """colours for which a bool closure over a State can return true"""
+    tests = colour_tests(prog, pred)
+    allowed = set()
+    sites = [i for (i, j, p, rv, line) in pred.assigns() if p == [0] and rv[0] == "use" and const_int(rv[1]) == 1]
+    for i in sites:
+        allowed |= colours_at(pred, tests, i)
+    # `|s| s.color() == X`: the comparison result is returned directly
+    for i, t in pred.calls():
+        m = re.search(r"sndbuf::Color as core::cmp::PartialEq>::(eq|ne)$", callee(t))
+        if m and t["dest"] == [0]:
+            col = promoted_colour(prog, pred, t["args"][1]) or promoted_colour(prog, pred, t["args"][0])
+            if col:
+                allowed |= ({col} if m.group(1) == "eq" else set(COLOURS) - {col})
+    if not sites and not allowed:
+        return set(COLOURS)
+    return allowed
+
+
+def filtered_colours(prog, clo):
+    """for a closure handed to for_each/map over `iter.filter(pred)`: the colours pred lets through (else all)"""
+    parent_name = clo.short.rsplit("::{closure", 1)[0]
+    for parent in prog.by_short.get(parent_name, []):
+        for i, t in parent.calls():
+            if clo.id not in t["f"].get("fns", []) or not t["args"]:
+                continue
+            # the receiver: result of Iterator::filter(_, pred)
+            for og in local_origins(parent, t["args"][0]):
+                if og[0] == "call" and re.search(r"Iterator::filter$", callee(og[2])):
+                    for k in og[2]["f"].get("fns", []):
+                        pred = prog.bodies.get(k)
+                        if pred is not None:
+                            return true_colours(prog, pred)
+    return set(COLOURS)
+
+
 def run(ctx):
     prog = ctx.prog
     ctx.rule("R1", "colour code: Color::prefix and State::color are inverse 2-bit tables in bits 62..63 and offsets are masked with u64::MAX >> 2")
@@ -246,6 +282,8 @@ def run(ctx):
                         subj = ("state", q[0])
                         break
                 may = colours_at(b, tests, i, subj)
+                if b.kind == "closure":
+                    may &= filtered_colours(prog, b)
                 ctx.ob("R3", "%s|set_color(Lost) never on a Recved state" % b.short, "Recved" not in may,
                        b.where(t["line"]),
                        "colours the state may have here, from the dominating colour tests on it: %s — recolouring an acknowledged range "
